@@ -2,6 +2,7 @@ package main
 
 import (
 	"fmt"
+	"go/types"
 	"go/token"
 	"regexp"
 	"sort"
@@ -557,7 +558,8 @@ func checkC22(c *Ctx, r *Report) {
 	pkgs := []string{pkgStorage, pkgCache, pkgMetadata, pkgBroker, pkgBrokerLib}
 	type site struct {
 		fn   *ssa.Function
-		call *ssa.Call
+		call *ssa.Call    // the Sprintf / Join call, or nil for a plain concatenation
+		val  ssa.Value    // the expression itself
 	}
 	var sites []site
 	inner := map[*ssa.Call]bool{} // Sprintf/Join calls that are elements of an enclosing key expression
@@ -565,6 +567,40 @@ func checkC22(c *Ctx, r *Report) {
 		for _, fn := range m.FuncsInPkg(p) {
 			for _, b := range fn.Blocks {
 				for _, in := range b.Instrs {
+					if bo, isBo := in.(*ssa.BinOp); isBo && bo.Op == token.ADD {
+						// a plain string concatenation: take the outermost + whose operands contain no
+						// Sprintf / Join (those are sites of their own and grow over a trailing +)
+						if bt, ok := bo.Type().Underlying().(*types.Basic); ok && bt.Info()&types.IsString != 0 {
+							outer := true
+							if bo.Referrers() != nil {
+								for _, ref := range *bo.Referrers() {
+									if b2, ok := ref.(*ssa.BinOp); ok && b2.Op == token.ADD {
+										outer = false
+									}
+								}
+							}
+							hasBuilder := false
+							var scan func(v ssa.Value)
+							scan = func(v ssa.Value) {
+								switch y := strip(v).(type) {
+								case *ssa.BinOp:
+									if y.Op == token.ADD {
+										scan(y.X)
+										scan(y.Y)
+									}
+								case *ssa.Call:
+									if cn := calleeName(&y.Call); cn == "fmt.Sprintf" || cn == "path.Join" {
+										hasBuilder = true
+									}
+								}
+							}
+							scan(bo)
+							if outer && !hasBuilder {
+								sites = append(sites, site{fn, nil, bo})
+							}
+						}
+						continue
+					}
 					call, ok := in.(*ssa.Call)
 					if !ok {
 						continue
@@ -573,7 +609,7 @@ func checkC22(c *Ctx, r *Report) {
 					if n != "fmt.Sprintf" && n != "path.Join" {
 						continue
 					}
-					sites = append(sites, site{fn, call})
+					sites = append(sites, site{fn, call, call})
 					// mark nested builders
 					var args []ssa.Value
 					if n == "fmt.Sprintf" {
@@ -592,7 +628,7 @@ func checkC22(c *Ctx, r *Report) {
 	}
 	// prefix consumers: the string flows (in the same function, through + only) into a listing /
 	// prefix-deleting / prefix-matching call
-	isPrefixUse := func(call *ssa.Call) bool {
+	isPrefixUse := func(call ssa.Value) bool {
 		var flows func(v ssa.Value, depth int) bool
 		flows = func(v ssa.Value, depth int) bool {
 			if depth > 4 || v.Referrers() == nil {
@@ -641,14 +677,14 @@ func checkC22(c *Ctx, r *Report) {
 		}
 		return flows(call, 0)
 	}
-	sort.Slice(sites, func(i, j int) bool { return sites[i].call.Pos() < sites[j].call.Pos() })
+	sort.Slice(sites, func(i, j int) bool { return sites[i].val.Pos() < sites[j].val.Pos() })
 	nKeys := 0
 	for _, s := range sites {
-		if inner[s.call] {
+		if s.call != nil && inner[s.call] {
 			continue
 		}
 		// the whole expression: include a trailing + "…"
-		var whole ssa.Value = s.call
+		var whole ssa.Value = s.val
 		for {
 			grown := false
 			if whole.Referrers() != nil {
@@ -677,19 +713,19 @@ func checkC22(c *Ctx, r *Report) {
 		nKeys++
 		r.fn(s.fn)
 		r.CallSites++
-		prefix := isPrefixUse(s.call)
+		prefix := isPrefixUse(whole)
 		_, bad := checkKeyShape(shape, alpha, prefix)
 		key := fmt.Sprintf("%s builds %s", funcName(s.fn), shapeString(shape))
 		if prefix {
 			key += " (prefix use)"
 		}
-		usesJoin := calleeName(&s.call.Call) == "path.Join"
+		usesJoin := s.call != nil && calleeName(&s.call.Call) == "path.Join"
 		if bad != "" {
-			r.viol("C22.R2", key, m.Pos(s.call.Pos()), bad)
+			r.viol("C22.R2", key, m.Pos(s.val.Pos()), bad)
 		} else if usesJoin && (alpha['/'] || !haveAlpha) {
-			r.viol("C22.R2", key, m.Pos(s.call.Pos()), "path.Join with a topic element that may contain '/'")
+			r.viol("C22.R2", key, m.Pos(s.val.Pos()), "path.Join with a topic element that may contain '/'")
 		} else {
-			r.ok("C22.R2", key, m.Pos(s.call.Pos()), "")
+			r.ok("C22.R2", key, m.Pos(s.val.Pos()), "")
 		}
 	}
 	if nKeys == 0 {
